@@ -90,8 +90,8 @@ class Gen:
         self.free_cnt = list(CNT)
         self.stored = set()      # bytes already stored (profile disj)
         self.lines = []          # bases of the touched lines (profile touched)
-        self.fresh = [x for x in range(5, 32) if x not in ADDR + CNT]   # profile ssa: unused registers
-        if profile == 'ssa':
+        self.fresh = [x for x in range(5, 32) if x not in ADDR + CNT] if profile == 'ssa' else [x for x in range(5, 32)]   # ssa profiles: unused registers
+        if profile in ('ssa', 'ssamem', 'ssald'):
             rng.shuffle(self.fresh)
 
     def n(self):
@@ -102,7 +102,7 @@ class Gen:
 
     def src(self):
         r = self.rng
-        if self.profile == 'ssa':
+        if self.profile in ('ssa', 'ssamem', 'ssald'):
             # reading a register makes it unavailable as a later destination (no WAR)
             c = r.random()
             if c < 0.1:
@@ -119,7 +119,7 @@ class Gen:
         return r.choice(self.pool)
 
     def dst(self):
-        if self.profile == 'ssa':
+        if self.profile in ('ssa', 'ssamem', 'ssald'):
             if not self.fresh:
                 return 0
             return self.fresh.pop()
@@ -145,7 +145,12 @@ class Gen:
             self.p.ins(r.choice(['lui', 'auipc']), self.dst(), imm=r.choice([0, 1, 3, 1000, -1, 524287]))
         else:
             # division by a register made non-zero
-            d = self.dst() or self.pool[0]
+            d = self.dst()
+            if d == 0:
+                if self.profile in ('ssa', 'ssald', 'ssamem'):
+                    self.p.ins('addi', 0, self.src(), imm=1)
+                    return
+                d = self.pool[0]
             self.p.ins('ori', d, self.src(), imm=1)
             self.p.ins(r.choice(['div', 'rem']), self.dst(), self.src(), d)
             self.p.tags.add('div')
@@ -221,8 +226,27 @@ class Gen:
             self.p.ins(m, rs1=reg, rs2=self.src(), imm=off)
             self.p.tags.add('store')
 
+    def ssa_access(self, kind):
+        r = self.rng
+        if len(self.fresh) < 2:
+            return self.alu()
+        m = r.choice(['lw', 'lw', 'lb', 'lh']) if kind == 'l' else r.choice(['sw', 'sw', 'sb', 'sh'])
+        size = {'w': 4, 'h': 2, 'b': 1}[m[1]]
+        a = r.randrange(0, self.p.memsize - size + 1)
+        a -= a % size
+        areg = self.fresh.pop()
+        self.p.ins('li', areg, imm=a)
+        if kind == 'l':
+            self.p.ins(m, self.dst(), areg, imm=0)
+            self.p.tags.add('load')
+        else:
+            self.p.ins(m, rs1=areg, rs2=self.src(), imm=0)
+            self.p.tags.add('store')
+
     def load(self, a=None):
         r = self.rng
+        if self.profile in ('ssamem', 'ssald'):
+            return self.ssa_access('l')
         if self.profile in ('disj', 'touched'):
             return self.exact_access('l')
         if a is None:
@@ -234,6 +258,10 @@ class Gen:
 
     def store(self, a=None):
         r = self.rng
+        if self.profile == 'ssamem':
+            return self.ssa_access('s')
+        if self.profile == 'ssald':
+            return self.ssa_access('l')
         if self.profile in ('disj', 'touched'):
             return self.exact_access('s')
         if self.profile in ('ldonly', 'ldslow'):
@@ -252,7 +280,7 @@ class Gen:
         if slow_cond:
             # the condition depends on a load: the shadow progresses while it resolves
             a = self.set_addr()
-            c = self.dst() or self.pool[0]
+            c = self.dst() or (0 if self.profile in ('ssa', 'ssald', 'ssamem') else self.pool[0])
             self.p.ins('lw', c, a, imm=self.mem_off(a, 4))
             self.p.tags.add('slow-branch')
             if r.random() < 0.5:
@@ -401,7 +429,13 @@ class Gen:
             self.p.ins('li', a, imm=addr - addr % 4)
             self.addr_val[a] = addr - addr % 4
             c = r.random()
-            if c < 0.5:
+            if self.profile == 'evictlf':
+                # load first (the line becomes resident), then usually dirty it: no store ever meets an absent line
+                self.p.ins(r.choice(['lw', 'lb']), self.dst(), a, imm=0)
+                if c < 0.7 and self.room(4):
+                    self.p.ins(r.choice(['sw', 'sb']), rs1=a, rs2=self.src(), imm=0)
+                    written[ln] = True
+            elif c < 0.5:
                 self.p.ins('sw', rs1=a, rs2=self.src(), imm=0)
                 written[ln] = True
             elif c < 0.6:
@@ -415,7 +449,7 @@ class Gen:
                 break
             self.p.ins('li', a, imm=ln * 64)
             self.addr_val[a] = ln * 64
-            if r.random() < 0.7:
+            if r.random() < 0.7 or self.profile == 'evictlf':
                 self.p.ins(r.choice(['lw', 'lb']), self.dst(), a, imm=r.choice([0, 4, 20, 60]) if True else 0)
             else:
                 self.p.ins('sw', rs1=a, rs2=self.src(), imm=0)
@@ -433,7 +467,7 @@ class Gen:
             elif c < 0.7:
                 self.store()
             else:
-                d = self.dst() or self.pool[0]
+                d = self.dst() or (0 if self.profile in ('ssa', 'ssald', 'ssamem') else self.pool[0])
                 self.p.ins('addi', d, self.src(), imm=r.randint(-5, 5))
                 self.p.ins('add', self.dst(), d, d)
         self.p.tags.add('tail')
@@ -451,7 +485,7 @@ class Gen:
         nmem = r.randint(0, min(64, p.memsize))
         for _ in range(nmem):
             p.mem[r.randrange(p.memsize)] = r.randint(-128, 127)
-        if prof in ('mem', 'stld', 'tail', 'mixed', 'ldonly', 'ldslow', 'disj', 'touched', 'evict') and r.random() < 0.7:
+        if prof in ('mem', 'stld', 'tail', 'mixed', 'ldonly', 'ldslow', 'disj', 'touched', 'evict', 'evictlf', 'ssamem', 'ssald') and r.random() < 0.7:
             # dense image
             for a in range(0, p.memsize, r.choice([1, 3, 4])):
                 p.mem[a] = r.randint(-128, 127)
@@ -459,10 +493,13 @@ class Gen:
         weights = {
             'alu': dict(alu=10),
             'ssa': dict(alu=8, branch=2, jump=1),
+            'ssamem': dict(alu=4, load=3, store=3, branch=1),
+            'ssald': dict(alu=4, load=5, branch=1),
             'ldonly': dict(alu=3, load=5, branch=1, loop=1, setaddr=1),
             'ldslow': dict(alu=3, load=2, slowbranch=3, branch=1),
             'disj': dict(alu=3, load=3, store=3, branch=1),
             'evict': dict(alu=3, load=1, store=1),
+            'evictlf': dict(alu=3),
             'touched': dict(alu=3, load=4, store=4, branch=1),
             'hazard': dict(alu=10, load=1),
             'waw': dict(alu=10),
@@ -508,7 +545,7 @@ class Gen:
                 self.loop()
             elif k == 'stld':
                 self.stld_pair()
-        if prof == 'evict':
+        if prof in ('evict', 'evictlf'):
             self.evict_pattern()
         if prof == 'tail':
             self.tail()
@@ -539,7 +576,9 @@ def gen_program(rng, profile, memsize=None, max_len=None):
             memsize = rng.choice([512, 1024, 2048])
         if profile == 'touched':
             memsize = rng.choice([128, 256, 512, 1024])
-        if profile == 'evict':
+        if profile in ('ssamem', 'ssald'):
+            memsize = rng.choice([64, 128, 256, 2048])
+        if profile in ('evict', 'evictlf'):
             memsize = rng.choice([2048, 4096, 8192])
             max_len = rng.choice([120, 180, 240])
         if profile in ('mem',) and rng.random() < 0.3:
